@@ -42,6 +42,7 @@ std::string handle_resolve(const JV &req) {
             else { pp.kind = ParamPattern::Kind::Input; pp.ts = tp_of(p); }
             impl.params.push_back(pp);
         }
+        impl.variadic = c.bool_or("variadic", false);
         impl.rank = operator_dispatch_detail::operator_rank(impl.params);
         fam.push_back(std::move(impl));
     }
